@@ -128,6 +128,9 @@ CASES = [
     dict(id="benign-multigetnext-enumerate", kind="benign", props=["C01", "C03", "C04"],
          edits=[(RAW, "        for requested, retrieved in zip(oids, output):\n            if not requested < retrieved.oid:",
                  "        for position, retrieved in enumerate(output):\n            requested = oids[position]\n            if not requested < retrieved.oid:")]),
+    dict(id="benign-bulkwalk-capped-size", kind="benign", props=["C02", "C16"],
+         edits=[(RAW, "            fetcher=self._bulkwalk_fetcher(bulk_size),", "            fetcher=self._bulkwalk_fetcher(min(bulk_size, 50)),")],
+         note="any repetition count >= 1 gives the same walk"),
     # ------------------------------------------------------------------ breaking (Appendix B; not already among seeded/)
     dict(id="break-group-stride", kind="breaking", props=["C01", "C02"],
          edits=[(UTIL, "varbinds[i::n]", "varbinds[i :: n + 1]")]),
